@@ -27,6 +27,10 @@ def unhex(s):
 
 def gen_system(rng, natoms, nshells, necps, lmax=1, far=False, screened=False):
     """random arrangement of shells and ECPs over atoms; every atom carries at least one of them"""
+    # every atom must carry a shell or an ECP: there have to be at least as many of them as atoms (found by the soak run at seed 3,
+    # which drew 4 atoms for 2 shells + 1 ECP and never left the rejection loop below)
+    if nshells + necps < natoms:
+        nshells = natoms - necps
     while True:
         sh = [rng.randrange(natoms) for _ in range(nshells)]
         ec = [rng.randrange(natoms) for _ in range(necps)]
